@@ -36,6 +36,14 @@ impl<T> RawTable<T> {
     }
 }
 
+#[cfg(feature = "verif-hooks")]
+impl<T> RawTable<T> {
+    /// Counters and the status word of every slot: `(len, free, statuses)`.
+    pub fn verif_state(&self) -> (usize, usize, Vec<u64>) {
+        (self.len, self.free, self.data.iter().map(|slot| slot.status).collect())
+    }
+}
+
 impl<T> RawTable<T> {
     pub fn reserve(&mut self, additional: usize) {
         if self.free < additional {
